@@ -25,12 +25,12 @@ def obs_invariants():
 # property -> what is run.  gated/free: (families, episodes quick, episodes thorough)
 PLAN = {
     'C01': {'gated': (['basic', 'ctl', 'cancel', 'pool', 'batch', 'barrier', ('tune', 2), 'reject'], 80, 900), 'free': (['basic', 'ctl', 'pool'], 64, 1200), 'model': ['MC_core']},
-    'C02': {'gated': (['ctl', 'pool', 'basic', 'barrier', 'bind2'], 80, 750), 'free': (['ctl', 'pool'], 64, 1200), 'model': ['MC_core']},
-    'C03': {'gated': (['basic', 'ctl', 'cancel', 'pool', 'barrier', 'batch', ('tune', 4), 'stop2'], 88, 1000), 'free': (['basic', 'ctl', 'pool', 'cancel'], 64, 1200), 'model': ['MC_core']},
+    'C02': {'gated': (['ctl', 'pool', 'basic', 'barrier', 'bind2', 'tune'], 84, 800), 'free': (['ctl', 'pool'], 64, 1200), 'model': ['MC_core']},
+    'C03': {'gated': (['basic', 'ctl', 'cancel', 'pool', 'barrier', 'batch', ('tune', 4), 'stop2'], 88, 1000), 'free': (['basic', 'ctl', 'pool', 'cancel', 'storm'], 80, 1500), 'model': ['MC_core']},
     'C05': {'gated': (['handle', 'basic', 'cancel', 'batch'], 64, 750), 'free': (['handle', 'batch'], 64, 1200), 'model': ['MC_core']},
     'C06': {'gated': (['barrier', 'ctl', 'cancel', 'stop2'], 72, 800), 'free': (['barrier', 'ctl'], 64, 1200), 'model': ['MC_core']},
-    'C07': {'gated': (['handle', 'basic', 'batch'], 64, 750), 'free': (['handle', 'batch'], 64, 1200), 'model': []},
-    'C08': {'gated': ([('batch', 5), 'reject'], 168, 1600), 'free': (['batch'], 96, 2400), 'model': []},
+    'C07': {'gated': (['handle', 'basic', 'batch'], 64, 750), 'free': (['handle', 'batch', 'storm'], 72, 1500), 'model': []},
+    'C08': {'gated': ([('batch', 5), 'reject'], 168, 1600), 'free': ([('batch', 3), 'storm'], 96, 2400), 'model': []},
     'C09': {'gated': (['ctl', 'barrier'], 64, 750), 'free': (['ctl'], 64, 1200), 'model': ['MC_core']},
     'C10': {'gated': (['cancel', 'batch', 'reject'], 72, 800), 'free': (['cancel'], 64, 1200), 'model': ['MC_core']},
     'C04': {'gated': (['basic', 'multi', 'barrier', 'cancel'], 64, 750), 'free': (['basic'], 48, 800), 'model': []},
@@ -239,7 +239,7 @@ def replay_prog(prog, choices):
 
 WINDOW_AFTER = {'PauseAndWait', 'Stop', 'WaitAndStop', 'Pause', 'WUF', 'Wait', 'Result', 'Close', 'Purge', 'BatchWait', 'BatchRead', 'TunePool',
                 'QClose', 'Drain', 'Restart', 'Resume'}
-RACE_FAMS = ['stop2', 'tune', 'bind2', 'distbind', 'basic', 'ctl', 'cancel', 'batch', 'handle', 'pool', 'multi', 'dist', 'adapter', 'life', 'barrier']
+RACE_FAMS = ['storm', 'stop2', 'tune', 'bind2', 'distbind', 'basic', 'ctl', 'cancel', 'batch', 'handle', 'pool', 'multi', 'dist', 'adapter', 'life', 'barrier']
 
 
 def parse_races(output):
@@ -499,7 +499,19 @@ def check_property(pid, tier, seed):
                     if who:
                         xp['sched']['who'] = hp['_who']
                     extra.append(xp)
-        holds += extra
+        # "the first k jobs are quick, the later ones slow": pool goroutines run ahead, but from the k-th worker-function entry on
+        # they are held there (a held entry is a job in flight for as long as anything else can run)
+        slow = []
+        for hp in holds:
+            if hp['sched']['label'] == 'wf.enter' and '_who' in hp:
+                njobs = sum(1 for c in hp['clients'] for o in c['ops'] if o['op'] == 'Add') + sum(len(o.get('items') or []) for c in hp['clients'] for o in c['ops'] if o['op'] == 'AddAll')
+                for k in range(2, min(njobs, 6) + 1):
+                    xp = json.loads(json.dumps(hp))
+                    xp['id'] = '%ss%d' % (hp['id'], k)
+                    xp['sched'] = {'kind': 'hold', 'label': 'wf.enter', 'nth': k, 'favor': 'pg', 'seed': rng.randrange(1 << 30)}
+                    slow.append(xp)
+        rng.shuffle(slow)
+        holds += extra + slow[:cap // 5]
         for hp in holds:
             hp.pop('_who', None)
         if len(holds) > cap:
